@@ -90,11 +90,8 @@ def c06(tier):
                  assumptions=['the site tables are consistent (C08)'], trusted=TRUSTED)
     m = _vm_model(rep, tier)
     props_vm.c06(rep, m)
-    try:
-        from . import cmpeval
-        cmpeval.c06e(rep, tier)
-    except ImportError:
-        pass
+    from . import props_macro
+    props_macro.c06e(rep, tier)
     return rep
 
 
@@ -162,7 +159,50 @@ def c02(tier):
     return rep
 
 
+def _macro(pid, tier, expl, fn, assumptions):
+    from . import props_macro
+    rep = Report(pid, tier, expl, assumptions=assumptions, trusted=TRUSTED)
+    getattr(props_macro, fn)(rep, tier)
+    return rep
+
+
+def c09(tier):
+    return _macro('C09', tier,
+                  'PARTIAL: decides the structural clauses of expansion order and substitution - the tie-break comparator '
+                  'evaluated on all 9 orderings of (start, length) and checked to be a strict weak order, priority bins visited '
+                  'highest first, splice range/position from one match, the three cases of body instantiation, agreement of the '
+                  'kind tables, leftmost scan per detector. NOT decided: that a detector matches exactly the derivations of its '
+                  'pattern, nor longest-match within one macro (LR engine, see C13).', 'c09',
+                  ['the LR engine recognises its grammar (C13, not claimed)'])
+
+
+def c10(tier):
+    return _macro('C10', tier,
+                  'Dependency rule on the expression that renames a temporary: it must depend on the token text and the pass '
+                  'counter and on no other per-token attribute; it contains a non-identifier character; the token becomes an ID; '
+                  'the pass argument is the budget-loop counter and there is one instantiation per counted pass (C11.a).', 'c10',
+                  ['identifiers match [a-zA-Z_][a-zA-Z0-9_]* (C14)'])
+
+
+def c11(tier):
+    return _macro('C11', tier,
+                  'Loop-shape rules over apply_macros: every mutation of the token stream is inside `for (c = ..; c < passes; c++)` '
+                  'with an unmodified counter and budget and at most one rewrite per iteration, so at most `passes` rewrites happen '
+                  'for every input and every macro set; exhaustion is reported; parse() forwards the error and passes a positive '
+                  'constant.', 'c11', ['each detector.detect() call terminates (LR driver consumes or reduces; not claimed)'])
+
+
+def c12(tier):
+    return _macro('C12', tier,
+                  'PARTIAL: decides the plumbing of rejection - conflicts become one MACRO_COMPILE_NON_LR error at the first pattern '
+                  'token, only conflict-free detectors reach the bins, error collection has no early exit, every parse-table write '
+                  'is conflict-checked, prefix mode spreads end-marker items over every column, and the container keys of the LR '
+                  'construction are discriminating strict weak orders. NOT decided: that conflict detection coincides with '
+                  'prefix-determinism of the pattern.', 'c12', ['LR(1) construction is correct (C13, not claimed)'])
+
+
 CHECKS = {
+    'C09': c09, 'C10': c10, 'C11': c11, 'C12': c12,
     'C02': c02,
     'C16': c16, 'C07': c07,
     'C08': c08,
